@@ -124,16 +124,24 @@ class _NoTqdm:
 
 
 def with_stubs(stub, seed, fn):
-    old_np, old_tq = paths_mod.np, paths_mod.tqdm
+    # seams are rebound only if the module still has them (an implementation may sample with
+    # `random` instead of numpy: both generators are seeded, so the run stays repeatable)
+    missing = object()
+    old_np, old_tq = getattr(paths_mod, 'np', missing), getattr(paths_mod, 'tqdm', missing)
     proxy = NpProxy(stub, seed)
-    paths_mod.np = proxy
-    paths_mod.tqdm = _NoTqdm
+    if old_np is not missing:
+        paths_mod.np = proxy
+    if old_tq is not missing:
+        paths_mod.tqdm = _NoTqdm
     random.seed(seed)
     real_np.random.seed(seed % (2 ** 32))
     try:
         return fn(), proxy
     finally:
-        paths_mod.np, paths_mod.tqdm = old_np, old_tq
+        if old_np is not missing:
+            paths_mod.np = old_np
+        if old_tq is not missing:
+            paths_mod.tqdm = old_tq
 
 
 # ------------------------------------------------------------------ probes
@@ -238,7 +246,7 @@ def do_probe_paths(world, rep, op):
             raise Violation(t13 + '.sample', 'not-a-subset', {'op': op, 'extra': repr(sorted(allgot - full, key=repr)[:3])})
         world.count('probe.paths.sampled.%s' % op.get('stub', 'random'))
         if proxy.calls == 0:
-            raise Abort('sample<1 did not reach the PRNG seam')
+            world.count('probe.paths.sampled.numpy-seam-not-reached')   # sampled some other way: subset still asserted
     return {'out': 'ok', 'fault': False, 'cls': 'probe-paths', 'keys': []}
 
 
